@@ -107,17 +107,36 @@ class BuildError(Exception):
     pass
 
 
+_BUILT = {}
+
+
 def build_harness(name):
+    # one binary per harness for the whole run of this process (the tree is hashed once per harness)
+    if name not in _BUILT:
+        _BUILT[name] = _build_harness(name)
+    return _BUILT[name]
+
+
+def _build_harness(name):
     spec = HARNESS[name]
     flags = ["-std=c++14", "-D" + GUARD] + spec["flags"]
     th = tree_hash([name, spec["cxx"]] + flags + spec["libs"])
     bdir = os.path.join(BUILD, "%s-%s" % (name, th))
     binp = os.path.join(bdir, name)
     if os.path.exists(binp):
+        try:
+            os.utime(bdir, None)
+        except OSError:
+            pass
         return binp
-    # drop stale builds of the same harness
+    # drop stale builds of the same harness (not recently used ones: another check.py process may be running them)
+    now = time.time()
     for old in glob.glob(os.path.join(BUILD, name + "-*")):
-        shutil.rmtree(old, ignore_errors=True)
+        try:
+            if now - os.path.getmtime(old) > 2 * 3600:
+                shutil.rmtree(old, ignore_errors=True)
+        except OSError:
+            pass
     os.makedirs(bdir, exist_ok=True)
     inc = os.path.join(bdir, "inc")
     gen_config(inc, **spec.get("config", {}))
@@ -236,8 +255,8 @@ prop("C03", harness="h_sched",
                   "real-libtbb executions of the same entry points with generated worker limits are part of C07 and C08"])
 MPIRUN = ["mpiexec", "--allow-run-as-root", "--host", "localhost:64", "-n"]
 prop("C04", harness="h_mpi",
-     quick=dict(shards=4, cases=4000, parallel=2, timeout=900, env={"VERIF_MAXN": "12"}, launcher=MPIRUN + ["8"],
-                extra_phases=[dict(shards=2, cases=3000, launcher=MPIRUN + ["3"], seed_offset=100, replay_with=False),
+     quick=dict(shards=4, cases=8000, parallel=2, timeout=900, env={"VERIF_MAXN": "12"}, launcher=MPIRUN + ["8"],
+                extra_phases=[dict(shards=2, cases=6000, launcher=MPIRUN + ["3"], seed_offset=100, replay_with=False),
                               dict(shards=1, cases=1500, launcher=MPIRUN + ["1"], seed_offset=200, replay_with=False)]),
      thorough=dict(shards=8, cases=12000, parallel=2, timeout=6000, env={"VERIF_MAXN": "16"}, launcher=MPIRUN + ["8"],
                    extra_phases=[dict(shards=4, cases=8000, launcher=MPIRUN + ["3"], seed_offset=100, replay_with=False),
@@ -792,8 +811,11 @@ def run_c19(pid, tier):
     th = tree_hash(["c19"])
     workdir = os.path.join(BUILD, "c19-" + th)
     for old in glob.glob(os.path.join(BUILD, "c19-*")):
-        if old != workdir:
-            shutil.rmtree(old, ignore_errors=True)
+        try:
+            if old != workdir and time.time() - os.path.getmtime(old) > 2 * 3600:
+                shutil.rmtree(old, ignore_errors=True)
+        except OSError:
+            pass
     b = H.Builder(REPO, workdir, gen_config)
     hs = H.public_headers(REPO)
     findings = open_findings(pid)
@@ -821,6 +843,22 @@ def run_c19(pid, tier):
     for h in hs:
         tus = [("on", True, "g++", [h])]
         objjobs.append((h, tus, pool.submit(b.compile, [h], "on", True, "g++", False)))
+    # class 2b: configuration without TBB/MPI: one plain object per header (non-inline definitions are emitted whether used or not)
+    offjobs = []
+    for h in hs:
+        offjobs.append((h, pool.submit(b.compile, [h], "off", False, "g++", False)))
+    # class 2c: two headers in ONE translation unit, both orders, with both instantiation snippets: every header together with
+    # each umbrella header in quick, all ordered pairs in thorough
+    umbrellas = [h for h in hs if h in ("parmcb/parmcb.hpp", "parmcb/mpi/parmcb.hpp")]
+    samejobs = []
+    for a in hs:
+        for c in hs:
+            if a == c:
+                continue
+            if tier == "quick" and a not in umbrellas and c not in umbrellas:
+                continue
+            tus = [("on", True, "g++", [a, c])]
+            samejobs.append((tus, pool.submit(H.check_program, b, tus, False)))
     for tus, f in jobs:
         evaluations += 1
         classes["singleton-" + tus[0][0]] = classes.get("singleton-" + tus[0][0], 0) + 1
@@ -846,6 +884,31 @@ def run_c19(pid, tier):
         nontrivial.add(H.program_text(tus))
         if not ok:
             record(("C19/%s | %s/on/does-not-link" % (tus[0][3][0].replace("parmcb/", ""), tus[1][3][0].replace("parmcb/", "")), H.first_error(err)), tus)
+    offobjs = {}
+    for h, f in offjobs:
+        ok, obj, err = f.result()
+        evaluations += 1
+        classes["plain-object-config-off"] = classes.get("plain-object-config-off", 0) + 1
+        if not ok:
+            record(("C19/%s/off-g++/does-not-compile" % h.replace("parmcb/", ""), H.first_error(err)), [("off", False, "g++", [h])])
+        else:
+            offobjs[h] = obj
+    offpairs = []
+    for a, c in itertools.combinations_with_replacement(sorted(offobjs), 2):
+        tus = [("off", False, "g++", [a]), ("off", False, "g++", [c])]
+        offpairs.append((tus, pool.submit(b.link, [offobjs[a], offobjs[c]])))
+    for tus, f in offpairs:
+        ok, err = f.result()
+        evaluations += 1
+        classes["pair-link-config-off"] = classes.get("pair-link-config-off", 0) + 1
+        nontrivial.add(H.program_text(tus))
+        if not ok:
+            record(("C19/%s | %s/off/does-not-link" % (tus[0][3][0].replace("parmcb/", ""), tus[1][3][0].replace("parmcb/", "")), H.first_error(err)), tus)
+    for tus, f in samejobs:
+        evaluations += 1
+        classes["two-headers-one-tu"] = classes.get("two-headers-one-tu", 0) + 1
+        nontrivial.add(H.program_text(tus))
+        record(f.result(), tus)
     # class 3: generated multi-header translation units (subset x order), linked against each other and a generated single-header partner
     nprog = 6 if tier == "quick" else 60
     hdr = st.sampled_from(hs)
@@ -899,8 +962,11 @@ def run_c19(pid, tier):
                          "instantiation snippet, and ALL %d unordered pairs (incl. a header with itself) linked together. Generated with Hypothesis from "
                          "VERIF_SEED: %d programs of three TUs with 2-3 headers each in generated order, compiled with snippets and linked. Oracles: compiler "
                          "and linker exit status. Non-trivial = every program (singletons and >=2-TU programs sharing headers are exactly the classes the "
-                         "property names); distinct by program text. 'exhaustive' refers to the singleton and pair classes." % (
-                             len(hs), "" if tier == "quick" else " with g++ and clang++", len(pairjobs), nprog),
+                         "property names); distinct by program text. Also enumerated: one plain object per header in the configuration WITHOUT TBB/MPI "
+                         "and all their pairs linked; two headers in one TU in both orders with both snippets (%s). 'exhaustive' refers to the "
+                         "singleton and pair classes." % (
+                             len(hs), "" if tier == "quick" else " with g++ and clang++", len(pairjobs), nprog,
+                             "every header together with each umbrella header" if tier == "quick" else "all ordered pairs"),
                     samples=samples, classes=classes, compiles=b.compiles, links=b.links, headers=len(hs), committed_replays=n_replayed,
                     violations_found=[dict(key=k, message=m, replay=p) for k, m, p in violations])
     write_evidence(pid, tier, sd, "exploration", coverage,
@@ -1246,6 +1312,15 @@ def main():
     ap.add_argument("--setup", action="store_true")
     a = ap.parse_args()
     os.makedirs(BUILD, exist_ok=True)
+    # scratch directories of runs that were killed: remove when older than 3 hours
+    now = time.time()
+    for pat in ("run-*", "demo-run-*"):
+        for d in glob.glob(os.path.join(BUILD, pat)):
+            try:
+                if now - os.path.getmtime(d) > 3 * 3600:
+                    shutil.rmtree(d, ignore_errors=True)
+            except OSError:
+                pass
     if a.setup:
         sys.exit(setup())
     if a.pid not in PROPS:
